@@ -168,6 +168,9 @@ class SpecEval:
                 self.err('comparison of different sorts %s / %s in %r' % (a.sort, b.sort, e))
             if a.sort in ('F64', 'F32'):
                 t = '(fp.eq %s %s)' % (a.term, b.term)
+            elif a.sort == 'Str' and self.vc.strlits.get('') in (a.term, b.term) and a.term != b.term:
+                # a string is empty iff it has no runes
+                t = '(= (gs.rlen %s) 0)' % (b.term if a.term == self.vc.strlits.get('') else a.term)
             elif a.sort == 'Slice':
                 # slices are compared as values (header equality); only nil comparisons are Go-legal
                 t = '(= %s %s)' % (a.term, b.term)
